@@ -580,3 +580,44 @@ M("C17", "r4-chunked-no-lookahead", G, "", "", "C17.R4", edits=_chunked(read="CH
 # breaking: the chunks advance further than the positions tested / windows not adjacent
 M("C17", "r4-chunked-stride-skips-offsets", G, "", "", "C17.R4", edits=_chunked(stride="CHUNK + width"))
 M("C17", "r4-chunked-second-window-shifted", G, "", "", "C17.R4", edits=_chunked(second="data[i + width + 1 : i + 2 * width + 1]"))
+
+
+# ------------------------------------------- R3 (DOM): what is parsed out of one guard configuration is reported for it only
+_SCAN_TOP = "    offset = 0\n    while True:\n        fh.seek(offset)\n"
+_INIT_CK = "            checksum = 0\n"
+_INIT_SET = "            settings: list[GuardrailSetting] = []\n"
+_YIELD_END = "                settings=settings,\n            )\n"
+# breaking: the settings list is created once for the whole scan - the settings of all candidates pile up in every report
+M("C17", "r3-settings-list-shared-by-all-candidates", G, "", "", "C17.R3",
+  edits=[(G, _SCAN_TOP, "    settings: list[GuardrailSetting] = []\n" + _SCAN_TOP), (G, _INIT_SET, "")])
+# breaking: the checksum is reset only when the candidate before it was rejected by the bounds test (reset on one path only);
+# it reaches the report through a copy
+M("C17", "r3-checksum-reset-on-one-path-only", G, "", "", "C17.R3",
+  edits=[(G, _SCAN_TOP, "    checksum = 0\n" + _SCAN_TOP), (G, _INIT_CK, ""),
+         (G, "                offset += 1\n                continue\n", "                offset += 1\n                checksum = 0\n                continue\n"),
+         (G, "            yield GuardrailMetadata(\n", "            stored = checksum\n            yield GuardrailMetadata(\n"),
+         (G, "                checksum=checksum,\n", "                checksum=stored,\n")])
+# breaking: the settings accumulate (`settings = settings + [..]` is not a reset)
+M("C17", "r3-settings-concatenated-never-reset", G, "", "", "C17.R3",
+  edits=[(G, _SCAN_TOP, "    settings: list[GuardrailSetting] = []\n" + _SCAN_TOP), (G, _INIT_SET, ""),
+         (G, "                settings.append(setting)\n", "                settings = settings + [setting]\n")])
+# twins: reset after the report instead of before the parse; both initialised by one tuple assignment
+T("C17", "twin-r3-checksum-reset-after-report", G, "", "", edits=[(G, _SCAN_TOP, "    checksum = 0\n" + _SCAN_TOP), (G, _INIT_CK, ""), (G, _YIELD_END, _YIELD_END + "            checksum = 0\n")])
+T("C17", "twin-r3-tuple-initialisation", G, "", "", edits=[(G, _INIT_CK, ""), (G, _INIT_SET, "            checksum, settings = 0, []\n")])
+T("C17", "twin-r3-checksum-if-else", G, "", "", edits=[(G, _INIT_CK, "            checksum = 0\n            found_checksum = False\n"),
+  (G, "                    checksum = u32be(setting.value)\n", "                    checksum = u32be(setting.value)\n                    found_checksum = True\n")])
+
+# ------------------------------------------------ R5 (TAINT): an n-gram is counted / yielded whatever bytes it holds
+_COUNT = "            counter.update(bytes(gram) for gram in grams)\n"
+_YIELD_KEY = "            if count >= first_count:\n"
+# breaking: all-zero grams skipped in an explicit counting loop; printable keys only; NUL test in front of the yield; filter(lambda)
+M("C17", "r5-loop-skips-all-zero-grams", G, _COUNT, "            for gram in grams:\n                if not any(gram):\n                    continue\n                counter[bytes(gram)] += 1\n", "C17.R5")
+M("C17", "r5-only-printable-grams-counted", G, _COUNT, "            counter.update(k for k in map(bytes, grams) if k.isascii())\n", "C17.R5")
+M("C17", "r5-yield-skips-keys-with-nul", G, _YIELD_KEY, "            if b\"\\x00\" in key:\n                continue\n" + _YIELD_KEY, "C17.R5")
+M("C17", "r5-filter-lambda-on-first-byte", G, _COUNT, "            counter.update(map(bytes, filter(lambda g: g[0] != 0, grams)))\n", "C17.R5")
+# twins: explicit counting loop; map; conditions on length / truthiness / None-ness are not conditions on the bytes
+T("C17", "twin-r5-explicit-counting-loop", G, _COUNT, "            for gram in grams:\n                counter[bytes(gram)] += 1\n")
+T("C17", "twin-r5-count-map-bytes", G, _COUNT, "            counter.update(map(bytes, grams))\n")
+T("C17", "twin-r5-length-filter", G, _COUNT, "            counter.update(bytes(gram) for gram in grams if len(gram) == keylen and None not in gram)\n")
+T("C17", "twin-r5-yield-nonempty-key", G, _YIELD_KEY, "            if not key:\n                continue\n" + _YIELD_KEY)
+T("C17", "twin-r5-counter-from-generator", G, "", "", edits=[(G, _COUNT, "            counter = counter + collections.Counter(bytes(gram) for gram in grams)\n")])
